@@ -656,6 +656,7 @@ def local_def(func: ast.AST, node: ast.AST) -> ast.AST:
     if isinstance(node, ast.Name):
         defs = [st.value for st in walk_local(func) if isinstance(st, ast.Assign) and len(st.targets) == 1
                 and isinstance(st.targets[0], ast.Name) and st.targets[0].id == node.id]
+        defs += [st.value for st in walk_local(func) if isinstance(st, ast.NamedExpr) and isinstance(st.target, ast.Name) and st.target.id == node.id]
         if len(defs) == 1:
             return defs[0]
     return node
